@@ -21,6 +21,17 @@ let layout (line : string) : string =
     (match reconstruct (type_of v) (structural v) with
      | Some v -> to_string (tagged "some" [ sexp_of_value v ])
      | None -> "none")
+  | "prune", [ v; t ] ->
+    (* C05: the supplied value (structural form) shrunk to a witness node's type: the literal model of named.rs prune_value
+       (stack machine, bits, byte padding, decoder) — and it must equal the structural description (C05_prune_value_is_prune) *)
+    let sv = structural (value_of v) in
+    let ty = sty_of t in
+    let a = prune_value_bytes sv ty and b = prune sv ty in
+    let sh = shrinks ty (struct_ty (type_of (value_of v))) in
+    (match a, b with
+     | Some x, Some y when x = y -> Printf.sprintf "(some %s) (shrinks %b)" (to_string (sexp_of_sval x)) sh
+     | None, None -> Printf.sprintf "none (shrinks %b)" sh
+     | _ -> "MODEL-DISAGREES")
   | "wf", [ v ] -> if value_wf (value_of v) then "true" else "false"
   | "cast", [ a; b ] -> if cast_ok (ty_of a) (ty_of b) then "true" else "false"
   | _ -> "ERR bad layout case"
